@@ -988,7 +988,10 @@ func (c *Conn) parseReturn(ret rpccp.Return, called [][]capnp.PipelineOp) parsed
 
 		var embargoCaps uintSet
 		var disembargoes []senderLoopback
-		mtab := ret.Message().CapTable
+		var mtab []*capnp.Client
+		if msg := ret.Message(); msg != nil { // nil if the Return had no body
+			mtab = msg.CapTable
+		}
 		for _, xform := range called {
 			p2, _ := capnp.Transform(content, xform)
 			iface := p2.Interface()
@@ -1414,6 +1417,11 @@ func (c *Conn) reportf(format string, args ...interface{}) {
 }
 
 func clearCapTable(msg *capnp.Message) {
+	if msg == nil {
+		// The struct came from a null pointer (e.g. a Call or Return
+		// message without a body) and belongs to no message.
+		return
+	}
 	releaseList(msg.CapTable).release()
 	msg.CapTable = nil
 }
